@@ -44,8 +44,9 @@ MANIFEST = dict(
          "insert_getters (a history with getters inserted anywhere ends in the same editor with the same return values; a repeated "
          "getter answers the same) — true by construction in a functional model, the content is the correspondence below; "
          "insert_cgetters / enumerate_overwrites / interval_loop for a small model of the C context's iterator slots (enumerate-style "
-         "calls write only their slot); contexts_independent / steps_commute / other_context_untouched (an interleaved history of two "
-         "editors projects to the two separate histories, return values included); the process-wide logger slot as an explicit model "
+         "calls write only their slot); contexts_independent / contexts_independent_panic / steps_commute / other_context_untouched (an interleaved history of "
+         "two editors projects to the two separate histories, return values included; its panic, if any, is the panic of one "
+         "context alone); the process-wide logger slot as an explicit model "
          "with logger_isolated_refuted (finding F33) and logger_isolated_partial; clear_eq_fresh / reset_is_fresh (Editor::clear "
          "yields exactly the constructors' editor for the same configuration, dictionary, tables, layout object and clock, up to the "
          "pending flush level; hence every continuation with queries anywhere agrees), its bisimulation form (Bisim, bisim_runs, "
